@@ -545,6 +545,49 @@ def _eng_cases(rng, tier):
         script += [("cmd", "FLUSH"), ("quiesce",), ("cmd", "QUERY t")] + [("cmd", q) for q in qtexts]
         out.append({"kind": "engine", "line": "", "cfg": cfg, "script": [list(x) for x in script], "evs": evs, "qs": qs, "qtexts": qtexts,
                     "show": f"engine {cfg}: {total} events, " + "; ".join(qtexts)})
+    # targeted: ordering by other columns (context_id, g) with a rotated memtable still waiting for its flush
+    # (passive buffer) next to the active memtable and to segments
+    for i in range(3 if tier == "quick" else 60):
+        cfg = dict(rng.choice(_E.CFGS)); cfg["shards"] = 1; cfg["segments_per_merge"] = 2
+        cap = cfg["fill_factor"] * cfg["event_per_zone"]
+        script = [("cmd", f"DEFINE t FIELDS {_E.FIELDS}")]
+        evs = []
+        def st(i_):
+            cx = rng.below(12); k = rng.below(50); g = f"g{rng.below(4)}"
+            script.append(("cmd", f'STORE t FOR k{cx:02d} PAYLOAD {{"k": {k}, "g": "{g}"}}')); evs.append({"k": k})
+        # no earlier segment: while the flush is parked the in-flight segment has no files, and reads of OTHER
+        # segments are unreliable then (C03 finding ReadDuringFlushDropsSegmentFlow) - not what is tested here
+        script += [("quiesce",), ("raw", "!park fw_begin")]
+        for j in range(cap):
+            st(j)
+        script.append(("raw", "!wait_parked fw_begin 1500"))
+        for j in range(rng.range(1, max(1, cap - 1))):
+            st(j)
+        field = rng.choice(["context_id", "g", "k"])
+        qs, qtexts = [], []
+        for n_ in (1, 3, rng.range(2, 8)):
+            for desc in (False, True):
+                qs.append(("ordf", desc, n_, 0, field)); qtexts.append(f"QUERY t ORDER BY {field}{' DESC' if desc else ''} LIMIT {n_}")
+        script += [("cmd", "QUERY t")] + [("cmd", q) for q in qtexts]
+        script += [("raw", "!release fw_begin"), ("cmd", "FLUSH"), ("quiesce",), ("cmd", "QUERY t")] + [("cmd", q) for q in qtexts]
+        out.append({"kind": "engine", "line": "", "cfg": cfg, "script": [list(x) for x in script], "evs": evs, "qs": qs, "qtexts": qtexts,
+                    "show": f"engine order-by-{field}-with-passive {cfg}: {len(evs)} events, " + "; ".join(qtexts)})
+    # targeted: deep pagination over one shard with thousands of flushed rows
+    for i in range(1 if tier == "quick" else 6):
+        cfg = dict(fill_factor=50, event_per_zone=100, shards=rng.choice([1, 1, 2]), segments_per_merge=2)
+        script = [("cmd", f"DEFINE t FIELDS {_E.FIELDS}")]
+        evs = []
+        for j in range(rng.range(8400, 9500)):
+            k = rng.below(1000000)
+            script.append(("cmd", f'STORE t FOR c{j % 5} PAYLOAD {{"k": {k}, "g": "x"}}')); evs.append({"k": k})
+        script += [("cmd", "FLUSH"), ("quiesce",)]
+        qs, qtexts = [], []
+        for (n_, m_) in ((100, 1100), (50, rng.range(100, 4000)), (1200, 0), (10, 4300)):
+            qs.append(("ord", False, n_, m_, None)); qtexts.append(f"QUERY t ORDER BY k LIMIT {n_} OFFSET {m_}")
+        script += [("cmd", "QUERY t")] + [("cmd", q) for q in qtexts]
+        script += [("cmd", "FLUSH"), ("quiesce",), ("cmd", "QUERY t")] + [("cmd", q) for q in qtexts]
+        out.append({"kind": "engine", "line": "", "cfg": cfg, "script": [list(x) for x in script], "evs": evs, "qs": qs, "qtexts": qtexts,
+                    "show": f"engine deep-pagination {cfg}: {len(evs)} events, " + "; ".join(qtexts)})
     # targeted: every shard has flushed segments, then the smallest (largest) keys arrive for ONE context and stay
     # unflushed: an ordered LIMIT must still take them from that shard's memory (no shard may be skipped)
     for i in range(3 if tier == "quick" else 60):
@@ -596,8 +639,18 @@ def same(c, impl, model):
     return True if c.get("kind") == "engine" else _F["same"](c, impl, model)
 
 
-def _judge_query(spec, r, sel):
+def _judge_query(spec, r, sel, selrows=None):
     kind, desc, n_, m_, thr = spec
+    if kind == "ordf":
+        field = thr
+        if r["status"] != 200:
+            return f"{spec}: status {r['status']} {r.get('message')}"
+        got = [x.get(field) for x in r["rows"]]
+        pool = sorted((x.get(field) for x in (selrows or [])), reverse=bool(desc))
+        exp = pool[m_:m_ + n_]
+        if got != exp:
+            return f"ORDER BY {field}{' DESC' if desc else ''} LIMIT {n_}: returned {got}, the first {n_} of the typed order are {exp}"
+        return None
     if kind == "off":
         return f"OFFSET {m_} without LIMIT was answered with status 200" if r["status"] == 200 else None
     if r["status"] != 200:
@@ -628,15 +681,21 @@ def _eng_failures(c, impl):
         return [(2, j, w, [x["k"] for x in r["rows"]]) for j, (spec, r) in enumerate(zip(c["qs"], res[-n:]))
                 for w in [_judge_query(tuple(spec), r, sel)] if w]
     out = []
-    tail = res[-(2 * n + 4):]
-    for run, base_r, rs in ((1, tail[0], tail[1:1 + n]), (2, tail[n + 3], tail[n + 4:])):
+    # positions of the two base selections ("QUERY t") in the script; the n queries follow each of them
+    bases = [i for i, st in enumerate(c["script"]) if st[0] == "cmd" and st[1] == "QUERY t"]
+    if len(bases) < 2:
+        return []
+    b1, b2 = bases[-2], bases[-1]
+    for run, base_r, rs in ((1, res[b1], res[b1 + 1:b1 + 1 + n]), (2, res[b2], res[b2 + 1:b2 + 1 + n])):
         if not base_r or base_r["status"] != 200:
             continue
         sel = [x["k"] for x in base_r["rows"]]
         for j, (spec, r) in enumerate(zip(c["qs"], rs)):
-            w = _judge_query(tuple(spec), r, sel)
+            if r is None:
+                continue
+            w = _judge_query(tuple(spec), r, sel, base_r["rows"])
             if w:
-                out.append((run, j, ("mixed layout: " if run == 1 else "all flushed: ") + w, [x["k"] for x in r["rows"]]))
+                out.append((run, j, ("mixed layout: " if run == 1 else "all flushed: ") + w, [x.get("k") for x in r["rows"]]))
     return out
 
 
